@@ -265,6 +265,8 @@ class ThreadWorld(World):
             op["dist"] = r.choice(["normal", "uniform", "exp"])
             op["plan2"] = self._draw_plan(S)
             op["seed"] = r.randrange(2**31)
+            op["scale"] = r.choice([1.0, 1.0, 0.5, 3.0])
+            op["loc"] = r.choice([0.0, 0.0, -3.0, 2.0])
         return op
 
     # ------------------------------------------------------------- execution
@@ -730,7 +732,9 @@ class ThreadWorld(World):
     def _call_randn(self, op):
         qu = self.qu
         dt = op["dtype"]
-        kw = dict(dtype=dt, num_threads=op["nt"], seed=op["seed"], dist=op["dist"])
+        kw0 = dict(dtype=dt, num_threads=op["nt"], seed=op["seed"], dist=op["dist"])
+        scale, loc = op.get("scale", 1.0), op.get("loc", 0.0)
+        kw = dict(kw0, scale=scale, loc=loc) if (scale != 1.0 or loc != 0.0) else kw0
         sched = self.sched
         sched.begin_call(op["plan2"], inputs=[], poison=False)
         st, ref = self.call(lambda: qu.randn(op["n"], **kw))
@@ -740,6 +744,24 @@ class ThreadWorld(World):
             raise Violation("C16/raises_only_when_threaded:randn", str(ref))
         self._threaded(op, lambda: qu.randn(op["n"], **kw), [], [np.asarray(ref)],
                        poison=False, exact=True)
+        if kw is not kw0:
+            # the single-threaded routine scales and shifts the finished
+            # (complex) array: the threaded one must denote the same map of
+            # its own unscaled draw
+            sched.begin_call({"mode": "serial", "eager": False, "tape": [0]}, inputs=[], poison=False)
+            st0, base = self.call(lambda: qu.randn(op["n"], **kw0))
+            sched.end_call()
+            sched.run_leftovers()
+            if st0 == "rejected":
+                raise Violation("C16/raises_only_when_threaded:randn", str(base))
+            want = np.asarray(base) * scale + loc
+            got = np.asarray(ref)
+            if got.shape != want.shape or (got.size and not np.abs(got - want).max() <= 1e-6 * (abs(scale) + abs(loc) + 1)):
+                raise Violation("C16/serial_mismatch:randn_scale_loc",
+                                f"randn(scale={scale}, loc={loc}) differs from scale * randn() + loc by "
+                                f"{np.abs(got - want).max() if got.shape == want.shape else 'shape'}; "
+                                f"dtype={dt} nt={op['nt']} n={op['n']} dist={op['dist']}")
+            self.stats.probe("randn_scale_loc_checked")
         # re-seed so later draws in this run do not depend on this op
         qu.seed_rand(self.knobs.get("seed_rand", 0) + self.ncalls)
 
